@@ -258,7 +258,7 @@ Proof. intro H. induction l as [|x r IH]; [reflexivity|]. simpl. rewrite H, IH. 
 
 Lemma guards_fixed : forall c, v_guards (check fx_all c) = [].
 Proof.
-  intros [m st exp now dmax o | m conf rule exp now dmax o | b cachable life dflt dmax o_set o_hit | b ops
+  intros [m st exp now dmax o | m conf rule exp now dmax o | b method_ok vary cachable life dflt dmax o_lookup o_set o_hit | b ops
          | b [m conf rule | dflt] slack evs obs]; simpl; unfold guards; simpl.
   - unfold guard_F1. simpl. reflexivity.
   - unfold guard_F1, guard_F3. simpl. reflexivity.
@@ -276,7 +276,7 @@ Definition wf_case (f : fixes) (c : case) : Prop :=
   match c with
   | CFn _ _ _ _ dmax _ => 0 <= dmax <= max_delay
   | CExec m _ _ exp _ dmax _ => 0 <= dmax <= max_delay /\ wf_exec m exp
-  | CHttp _ _ _ _ dmax _ _ => 0 <= dmax
+  | CHttp _ _ _ _ _ _ dmax _ _ _ => 0 <= dmax
   | CCache _ _ => True
   | CHist _ hk slack evs _ => hist_wf f hk slack evs
   end.
@@ -285,7 +285,7 @@ Theorem check_sound : forall f c,
   wf_case f c ->
   v_corr (check f c) = true -> v_guards (check f c) = [] -> v_prop (check f c) = true.
 Proof.
-  intros f [m st exp now dmax o | m conf rule exp now dmax o | b cachable life dflt dmax o_set o_hit | b ops
+  intros f [m st exp now dmax o | m conf rule exp now dmax o | b method_ok vary cachable life dflt dmax o_lookup o_set o_hit | b ops
            | b hk slack evs obs] Hwf.
   - apply check_sound_fn. exact Hwf.
   - destruct Hwf. apply check_sound_exec; assumption.
